@@ -412,12 +412,18 @@ func init() {
 		}
 
 		// ---- CLI: recovery truncated to searchOptions.Limit; config default; ValidateLimit maximum ----
-		okCli := false
+		okCli, okFilt := false, false
 		for _, f := range x.Pkg("internal/cli") {
 			ast.Inspect(f, func(nd ast.Node) bool {
 				is, ok := nd.(*ast.IfStmt)
 				if !ok || es(is.Cond) != "len(results) == 0" {
 					return true
+				}
+				for _, st := range is.Body.List {
+					if as, ok := st.(*ast.AssignStmt); ok && len(as.Lhs) == 1 && es(as.Lhs[0]) == "recoveredResults" &&
+						es(as.Rhs[0]) == "database.FilterResults(recoveredResults, searchOptions)" {
+						okFilt = true
+					}
 				}
 				// inside: if recoveryErr == nil && len(recoveredResults) > 0 { if len(recoveredResults) > searchOptions.Limit { recoveredResults = recoveredResults[:searchOptions.Limit] }; results = recoveredResults }
 				ast.Inspect(is.Body, func(n2 ast.Node) bool {
@@ -439,6 +445,18 @@ func init() {
 		}
 		x.Assert("searchparams:cli-recovery-truncated", okCli, "expected the recovery step of cli/search.go to cut recoveredResults to searchOptions.Limit before `results = recoveredResults`")
 		setB("cliRecoveryTruncated", okCli)
+		x.Assert("searchparams:cli-recovery-filtered", okFilt, "expected `recoveredResults = database.FilterResults(recoveredResults, searchOptions)` in the recovery step of cli/search.go")
+		setB("cliRecoveryFiltered", okFilt)
+		if fd := x.Func(dbp, "FilterResults"); x.Assert("searchparams:FilterResults", fd != nil, "database.FilterResults not found") {
+			ok := false
+			for _, is := range ifStmts(fd) {
+				if es(is.Cond) == "r.Command != nil && passesFilters(r.Command, currentPlatform, options)" {
+					ok = true
+				}
+			}
+			x.Assert("searchparams:FilterResults-shape", ok, "expected FilterResults to keep exactly the results with `r.Command != nil && passesFilters(r.Command, currentPlatform, options)`")
+			setB("filterResultsShape", ok)
+		}
 		if fd := x.Func("internal/config", "DefaultConfig"); x.Assert("searchparams:DefaultConfig", fd != nil, "config.DefaultConfig not found") {
 			val, n := "", 0
 			ast.Inspect(fd.Body, func(nd ast.Node) bool {
